@@ -507,19 +507,23 @@ type c16GenStmt struct {
 	sql     string
 	markers []marker
 	dialect string
+	// comparison family: the atoms the statement was assembled from and its frame (for shrinking a failing input)
+	pieces []c16CmpPiece
+	frame  int
 }
 
-func genStatement(r *vh.Rng, rep *vh.Report, ti int, dialect string, forceKind string) c16GenStmt {
-	t := c16Templates[ti]
-	g := c16GenStmt{pos: t.pos, dialect: dialect}
+// c16Expand replaces the $S / $N / $Q / $W slots of a template by fresh marker literals
+func c16Expand(r *vh.Rng, rep *vh.Report, s string, dialect string, forceKind string) (string, []marker) {
+	var markers []marker
 	var sb strings.Builder
-	s := t.sql
 	for i := 0; i < len(s); i++ {
 		if s[i] == '$' && i+1 < len(s) {
 			var kind string
 			switch s[i+1] {
 			case 'S':
-				if forceKind != "" {
+				if forceKind == "plain" {
+					kind = "sq"
+				} else if forceKind != "" {
 					kind = forceKind
 				} else if r.Intn(3) == 0 {
 					kind = numberKinds[r.Intn(len(numberKinds))]
@@ -534,11 +538,14 @@ func genStatement(r *vh.Rng, rep *vh.Report, ti int, dialect string, forceKind s
 				if forceKind != "" && strings.Contains("int int-big int-leading-zero decimal exponent exponent-huge negative negative-decimal", forceKind) {
 					kind = forceKind
 				}
+				if forceKind == "plain" {
+					kind = "int"
+				}
 			case 'Q':
 				kind = "sq"
 			case 'W':
 				w := randWord(r, 10)
-				g.markers = append(g.markers, marker{"raw", w, []string{w}})
+				markers = append(markers, marker{"raw", w, []string{w}})
 				sb.WriteString(w)
 				i++
 				continue
@@ -547,15 +554,23 @@ func genStatement(r *vh.Rng, rep *vh.Report, ti int, dialect string, forceKind s
 				continue
 			}
 			m := genMarker(r, kind)
-			rep.Count("spelling:" + kind)
-			g.markers = append(g.markers, m)
+			if rep != nil {
+				rep.Count("spelling:" + kind)
+			}
+			markers = append(markers, m)
 			sb.WriteString(m.text)
 			i++
 			continue
 		}
 		sb.WriteByte(s[i])
 	}
-	g.sql = sb.String()
+	return sb.String(), markers
+}
+
+func genStatement(r *vh.Rng, rep *vh.Report, ti int, dialect string, forceKind string) c16GenStmt {
+	t := c16Templates[ti]
+	g := c16GenStmt{pos: t.pos, dialect: dialect}
+	g.sql, g.markers = c16Expand(r, rep, t.sql, dialect, forceKind)
 	if r.Intn(6) == 0 {
 		g.sql += ";"
 	}
@@ -644,6 +659,19 @@ var logLevels = []logrus.Level{logrus.TraceLevel, logrus.DebugLevel, logrus.Info
 
 func runC16(rep *vh.Report, r *vh.Rng, n int, thorough bool) {
 	sc := loadSQLSchema()
+	// violations are handed to the report at the end, the smallest failing input first (the family's statements
+	// are long; the first one is what ./check prints)
+	type c16Viol struct{ class, what, replay string }
+	var viols []c16Viol
+	violate := func(class, what, replay string) { viols = append(viols, c16Viol{class, what, replay}) }
+	defer func() {
+		sort.SliceStable(viols, func(i, j int) bool {
+			return len(viols[i].what)+len(viols[i].replay) < len(viols[j].what)+len(viols[j].replay)
+		})
+		for _, v := range viols {
+			rep.Violate(v.class, v.what, v.replay)
+		}
+	}()
 	hook := &capHook{}
 	logrus.AddHook(hook)
 	tmp, err := os.MkdirTemp("", "c16")
@@ -656,14 +684,17 @@ func runC16(rep *vh.Report, r *vh.Rng, n int, thorough bool) {
 		ti      int
 		dialect string
 		kind    string
+		pre     *c16GenStmt // a statement of the comparison family, generated up front
 	}
 	var jobs []job
-	// systematic part: every template x dialect once, every spelling x dialect on rotating templates
+	// systematic part: every template x dialect once, the comparison family (every comparison form x operand
+	// position x operand form, c16cmp.go), every spelling x dialect on rotating templates
 	for ti := range c16Templates {
 		for _, d := range []string{"mysql", "pg"} {
-			jobs = append(jobs, job{ti, d, ""})
+			jobs = append(jobs, job{ti, d, "", nil})
 		}
 	}
+	cmpStmts := c16CmpStatements(r, rep, thorough)
 	k := 0
 	for _, kind := range append(append([]string{}, stringKinds...), numberKinds...) {
 		for _, d := range []string{"mysql", "pg"} {
@@ -672,31 +703,60 @@ func runC16(rep *vh.Report, r *vh.Rng, n int, thorough bool) {
 				reps = len(c16Templates)
 			}
 			for j := 0; j < reps; j++ {
-				jobs = append(jobs, job{k % len(c16Templates), d, kind})
+				jobs = append(jobs, job{k % len(c16Templates), d, kind, nil})
 				k += 7
 			}
 		}
 	}
+	// the family's statements are larger than the templates': interleave them so that the case shards replayed
+	// in parallel on the model have about the same size
+	{
+		var mixed []job
+		ci := 0
+		for i, jb := range jobs {
+			mixed = append(mixed, jb)
+			for ci < len(cmpStmts) && ci*len(jobs) < (i+1)*len(cmpStmts) {
+				mixed = append(mixed, job{0, cmpStmts[ci].dialect, "", &cmpStmts[ci]})
+				ci++
+			}
+		}
+		for ; ci < len(cmpStmts); ci++ {
+			mixed = append(mixed, job{0, cmpStmts[ci].dialect, "", &cmpStmts[ci]})
+		}
+		jobs = mixed
+	}
+	systematic := len(jobs)
 	for len(jobs) < n {
 		d := "mysql"
 		if r.Bool() {
 			d = "pg"
 		}
-		jobs = append(jobs, job{r.Intn(len(c16Templates)), d, ""})
+		if r.Bool() {
+			if g, ok := c16CmpRandom(r, rep, d); ok {
+				jobs = append(jobs, job{0, d, "", &g})
+				continue
+			}
+		}
+		jobs = append(jobs, job{r.Intn(len(c16Templates)), d, "", nil})
 	}
 	if !thorough && len(jobs) > n && n > 0 {
-		// keep the systematic prefix (templates x dialects), sample the rest
-		keep := 2 * len(c16Templates)
-		if n > keep {
+		// keep the systematic prefix (templates x dialects, comparison family), sample the rest
+		if n > systematic {
 			jobs = jobs[:n]
 		}
 	}
 
 	censorEvery := 3
 	for ji, jb := range jobs {
-		g := genStatement(r, rep, jb.ti, jb.dialect, jb.kind)
+		var g c16GenStmt
+		if jb.pre != nil {
+			g = *jb.pre
+			rep.Count("position:comparison-family")
+		} else {
+			g = genStatement(r, rep, jb.ti, jb.dialect, jb.kind)
+			rep.Count("position:" + g.pos)
+		}
 		setDialect(g.dialect)
-		rep.Count("position:" + g.pos)
 		rep.Count("dialect:" + g.dialect)
 		lab := fmt.Sprintf("#%d %s %s", ji, g.dialect, g.pos)
 		replay := fmt.Sprintf("dialect=%s sql=%q", g.dialect, g.sql)
@@ -732,7 +792,7 @@ func runC16(rep *vh.Report, r *vh.Rng, n int, thorough bool) {
 			})
 			rep.OracleChecks++
 			if o.Kind == "panic" {
-				rep.Violate("redact-panic", "HandleRawSQLQuery panicked: "+o.Msg, replay)
+				violate("redact-panic", "HandleRawSQLQuery panicked: "+o.Msg, replay)
 				continue
 			}
 			if mode == sqlparser.ModeStrict {
@@ -750,13 +810,19 @@ func runC16(rep *vh.Report, r *vh.Rng, n int, thorough bool) {
 				if herr != nil || notParsed {
 					cl = "unparsed-statement-as-redacted-text"
 				}
-				rep.Violate(vclass(cl), fmt.Sprintf("mode=%s: redacted text %q still contains the literal %s", mode, red, hit), replay)
+				if ssql, sred, shit, ok := c16CmpShrink(g, mode); ok {
+					// the same failure on one atom of the combination: a smaller failing input
+					violate(vclass(cl), fmt.Sprintf("mode=%s: redacted text %q still contains the literal %s", mode, sred, shit),
+						fmt.Sprintf("dialect=%s sql=%q   (shrunk from: %s)", g.dialect, ssql, g.sql))
+				} else {
+					violate(vclass(cl), fmt.Sprintf("mode=%s: redacted text %q still contains the literal %s", mode, red, hit), replay)
+				}
 			}
 		}
 		for _, e := range hook.take() {
 			rep.OracleChecks++
 			if hit := findMarker(e, g.markers); hit != "" {
-				rep.Violate(vclass("literal-in-parser-log"), fmt.Sprintf("log entry %q contains the literal %s", e, hit), replay)
+				violate(vclass("literal-in-parser-log"), fmt.Sprintf("log entry %q contains the literal %s", e, hit), replay)
 			}
 		}
 		logrus.SetLevel(logrus.TraceLevel)
@@ -799,7 +865,7 @@ func runC16(rep *vh.Report, r *vh.Rng, n int, thorough bool) {
 				rep.Count(fmt.Sprintf("tree-size:%d", bucket(before.size())))
 				rep.OracleChecks++
 				if o.Kind == "ok" && printed != redStrict {
-					rep.Violate("hook-differs", fmt.Sprintf("the hooked walk prints %q, HandleRawSQLQuery returned %q", printed, redStrict), replay)
+					violate("hook-differs", fmt.Sprintf("the hooked walk prints %q, HandleRawSQLQuery returned %q", printed, redStrict), replay)
 				}
 				// shape: the redacted text parses and has the node structure of the statement
 				if _, ddl := stmt.(*sqlparser.DDL); ddl {
@@ -812,13 +878,13 @@ func runC16(rep *vh.Report, r *vh.Rng, n int, thorough bool) {
 					if oerr != nil {
 						rep.Count("shape-skip:print-does-not-reparse")
 					} else if rerr != nil {
-						rep.Violate("redacted-does-not-parse", fmt.Sprintf("redacted text %q does not parse: %v", redStrict, rerr), replay)
+						violate("redacted-does-not-parse", fmt.Sprintf("redacted text %q does not parse: %v", redStrict, rerr), replay)
 					} else {
 						var a, b strings.Builder
 						conv(sc, reflect.ValueOf(orig)).skeleton(sc, &a)
 						conv(sc, reflect.ValueOf(re)).skeleton(sc, &b)
 						if a.String() != b.String() {
-							rep.Violate("shape-changed", fmt.Sprintf("redacted text %q has another node structure:\n  %s\n  %s", redStrict, a.String(), b.String()), replay)
+							violate("shape-changed", fmt.Sprintf("redacted text %q has another node structure:\n  %s\n  %s", redStrict, a.String(), b.String()), replay)
 						}
 					}
 				}
@@ -831,7 +897,7 @@ func runC16(rep *vh.Report, r *vh.Rng, n int, thorough bool) {
 			rep.Count("censor-cfg:" + cfg.label)
 			censor := acracensor.NewAcraCensor()
 			if err := censor.LoadConfiguration([]byte(cfg.yaml)); err != nil {
-				rep.Violate("harness-censor-config", "config rejected: "+err.Error(), cfg.yaml)
+				violate("harness-censor-config", "config rejected: "+err.Error(), cfg.yaml)
 				continue
 			}
 			logrus.SetLevel(logLevels[r.Intn(len(logLevels))])
@@ -846,7 +912,7 @@ func runC16(rep *vh.Report, r *vh.Rng, n int, thorough bool) {
 			logrus.SetLevel(logrus.TraceLevel)
 			rep.OracleChecks++
 			if o.Kind == "panic" {
-				rep.Violate("censor-panic", "HandleQuery panicked: "+o.Msg, replay+" cfg="+cfg.label)
+				violate("censor-panic", "HandleQuery panicked: "+o.Msg, replay+" cfg="+cfg.label)
 			}
 			rep.Count("censor:" + o.Kind)
 			for _, e := range entries {
@@ -856,7 +922,7 @@ func runC16(rep *vh.Report, r *vh.Rng, n int, thorough bool) {
 					if !parsedStrict {
 						cl = "unparsed-statement-in-censor-log"
 					}
-					rep.Violate(vclass(cl), fmt.Sprintf("censor log entry %q contains the literal %s", e, hit), replay+" cfg="+cfg.label)
+					violate(vclass(cl), fmt.Sprintf("censor log entry %q contains the literal %s", e, hit), replay+" cfg="+cfg.label)
 				}
 			}
 			// release: the writers flush to their files; only those files may carry an unparsed statement
@@ -868,14 +934,14 @@ func runC16(rep *vh.Report, r *vh.Rng, n int, thorough bool) {
 			for _, e := range hook.take() {
 				rep.OracleChecks++
 				if hit := findMarker(e, g.markers); hit != "" {
-					rep.Violate(vclass("literal-in-censor-log"), fmt.Sprintf("censor log entry (release) %q contains the literal %s", e, hit), replay)
+					violate(vclass("literal-in-censor-log"), fmt.Sprintf("censor log entry (release) %q contains the literal %s", e, hit), replay)
 				}
 			}
 			if cfg.capture != "" {
 				rep.OracleChecks++
 				if data, err := os.ReadFile(cfg.capture); err == nil {
 					if hit := findMarker(string(data), g.markers); hit != "" {
-						rep.Violate(vclass("literal-in-capture-file"), fmt.Sprintf("query_capture file holds the literal %s: %q", hit, string(data)), replay)
+						violate(vclass("literal-in-capture-file"), fmt.Sprintf("query_capture file holds the literal %s: %q", hit, string(data)), replay)
 					}
 				}
 			}
